@@ -1245,9 +1245,15 @@ static int write_triple_quoted(void *context, const UChar *text, int32_t line1_l
         } else {
             return CIF_ERROR;
         }
-    } else if (text[line1_length]) {
-        assert(text[line1_length] == '\n');
+    }
+
+    /* line1_length includes the opening delimiter, which is not part of the text */
+    if (text[line1_length - 3]) {
+        assert(text[line1_length - 3] == '\n');
         last_column = 0;  /* as-of before writing the last line */
+    } else {
+        /* a single line: the opening delimiter precedes the last (only) line */
+        last_column += 3;
     }
 
     nchars = u_fprintf(CONTEXT_UFILE(context), "%c%c%c%S%c%c%c", delimiter, delimiter, delimiter,
@@ -1255,7 +1261,8 @@ static int write_triple_quoted(void *context, const UChar *text, int32_t line1_l
 
     SET_LAST_COLUMN(context, last_column + last_line_length + 3);
 
-    return (nchars >= (line1_length + 6)) ? CIF_OK : CIF_ERROR;
+    /* at least the first line (whose given length includes the opening delimiter) and the closing delimiter */
+    return (nchars >= (line1_length + 3)) ? CIF_OK : CIF_ERROR;
 }
 
 static int write_numb(void *context, cif_value_tp *numb_value) {
